@@ -112,6 +112,7 @@ mod verif_c01_walker {
     }
 
     //@ obligation C09 C09.PageTable_zero.every_word_zero_afterwards
+    //@ obligation C08 C08.PageTable_zero.every_word_zero_afterwards
     #[kani::proof]
     #[kani::unwind(513)]
     fn c09_page_table_zero_contract() {
